@@ -15,7 +15,8 @@ type S struct {
 	Line string
 	Body []*S // non-nil for compound statements (may be empty)
 	Else []*S // optional else branch
-	Raw  bool // a line that is not a statement of its own (case label, break): never a directive target, ends ranges
+	Raw  bool // a line that is not a statement of its own (case label): never a directive target, ends ranges
+	Term bool // break; / fallthrough; closing a case clause: takes next-line and trailing comments, ends ranges
 	// filled by layout
 	start, end int
 }
@@ -30,6 +31,8 @@ func arity(n int) *S                    { return simple(fmt.Sprintf("set req.htt
 func okstmt(n int) *S                   { return simple(fmt.Sprintf("set req.http.Ok%d = \"v\";", n)) }
 func raw(l string) *S                   { return &S{Line: l, Raw: true} }
 func unusedDecl(n int) *S               { return simple(fmt.Sprintf("declare local var.unused%d STRING;", n)) }
+func term(l string) *S                  { return &S{Line: l, Term: true} } // break; / fallthrough; of a case clause
+func sameDecl() *S                      { return simple("declare local var.tmp STRING;") }
 func infoerr(n int) *S                  { return simple(fmt.Sprintf("error 9%d;", 1000+n)) }
 
 type program struct {
@@ -53,9 +56,11 @@ func programs() []program {
 		{"empty-blocks", [][]*S{{undef(1), nocall(2), block("if (req.http.X == \"1\") {", badarg(3)).withElse(), undef(4), block("{"), arity(5)}, {undef(6), block("if (req.http.Y == \"2\") {"), undef(7)}}},
 		{"same-rule-twice", [][]*S{{arity(1), arity(2), badarg(3), arity(4)}}},
 		// statements inside switch cases
-		{"switch", [][]*S{{undef(1), block("switch (req.http.X) {", raw("case \"1\":"), undef(2), nocall(3), raw("break;"), raw("case \"2\":"), badarg(4), raw("fallthrough;"), raw("default:"), undef(5), raw("break;")), undef(6)}}},
+		{"switch", [][]*S{{undef(1), block("switch (req.http.X) {", raw("case \"1\":"), undef(2), nocall(3), term("break;"), raw("case \"2\":"), badarg(4), term("fallthrough;"), raw("default:"), undef(5), term("break;")), undef(6)}, {arity(7), unusedDecl(8)}}},
 		// diagnostics that are reported for a statement after its subroutine has been walked (unused local)
 		{"late-diagnostic", [][]*S{{unusedDecl(1), undef(2), unusedDecl(3), okstmt(4)}, {unusedDecl(5), undef(6)}}},
+		// the same local name declared (and unused) in two subroutines and in two branches
+		{"late-same-name", [][]*S{{sameDecl(), undef(1), block("if (req.http.X == \"1\") {", unusedDecl(2))}, {block("if (resp.http.X == \"1\") {", sameDecl()).withElse(unusedDecl(3)), undef(4)}}},
 	}
 }
 
@@ -195,12 +200,12 @@ func placements(r *rendered) []Directive {
 	}
 	for _, b := range r.blks {
 		for i := range b {
-			if b[i].Raw {
+			if b[i].Raw || b[i].Term {
 				continue
 			}
 			for j := i; j < len(b); j++ {
-				if b[j].Raw {
-					break // ranges stay within one run of statements (e.g. one case clause)
+				if b[j].Raw || b[j].Term {
+					break // ranges stay within one run of statements (e.g. one case clause, without its break)
 				}
 				if j+1 >= len(b) && len(b) > 0 && hasRaw(b) {
 					continue // no "last comment of the block" placement inside a switch: it would sit after break
